@@ -2,6 +2,8 @@ import BoolFn.Props.C01
 import BoolFn.Props.C08
 import BoolFn.Props.C16
 import BoolFn.Proofs.QuantET
+import BoolFn.Proofs.BddQuant
+import BoolFn.Proofs.BddOps
 /-! # C15 — Objects stay well-formed through every sequence of operations
 
 After any sequence of public operations starting from the public constructors, every truth table
@@ -44,6 +46,74 @@ theorem table_inv {t : Table α} (h : ReachT t) : t.WF := by
   | existsQ vs _ ih => exact (Table.foldl_quantStep_inputs _ vs _ ih).1
   | forallQ vs _ ih => exact (Table.foldl_quantStep_inputs _ vs _ ih).1
   | derivative vs _ ih => exact (Table.foldl_quantStep_inputs _ vs _ ih).1
+
+/-- diagrams reachable through the public API (substitution is not yet part of this closure: its
+    proxy construction is covered by the correspondence only) -/
+inductive ReachB : Bdd α → Prop where
+  | mkConst (v : Bool) : ReachB (Bdd.mkConst v)
+  | mkLiteral (x : α) (v : Bool) : ReachB (Bdd.mkLiteral x v)
+  | ofExpr (e : Expr α) (b : Bdd α) : exprToBdd e = .ok (.ok b) → ReachB b
+  | ofTable (t : Table α) (b : Bdd α) : ReachT t → tableToBdd t = .ok b → ReachB b
+  | not {b} : ReachB b → ReachB (Bdd.not b)
+  | bit (op : Bool → Bool → Bool) {a b c} : ReachB a → ReachB b → Bdd.bitCommon (Inner.binop op) a b = .ok c → ReachB c
+  | restrict (v : PVal α) {b c} : (v.map (·.1)).Nodup → ReachB b → Bdd.restrict v b = .ok c → ReachB c
+  | existsQ (vs : List α) {b c} : vs.Nodup → ReachB b → Bdd.existsQ vs b = .ok c → ReachB c
+  | forallQ (vs : List α) {b c} : vs.Nodup → ReachB b → Bdd.forallQ vs b = .ok c → ReachB c
+  | derivative (vs : List α) {b c} : vs.Nodup → ReachB b → Bdd.derivative vs b = .ok c → ReachB c
+
+/-- **the diagram invariant holds after every history**: sorted duplicate-free inputs, as many
+    lib-bdd variables as inputs, a truth table of the right size -/
+theorem bdd_inv {b : Bdd α} (h : ReachB b) : b.WF := by
+  induction h with
+  | mkConst v => exact ⟨by simp [Bdd.mkConst, StrictSorted], rfl, Inner.wf_mkConst _ _⟩
+  | mkLiteral x v => exact ⟨by simp [Bdd.mkLiteral, StrictSorted], rfl, Inner.wf_ofFn _ _⟩
+  | ofExpr e b hb =>
+    by_cases hsm : e.inputs.length ≤ maxBddVars
+    · obtain ⟨b', hb', hwf, _⟩ := C01.exprToBdd_den e hsm
+      rw [hb] at hb'; cases hb'; exact hwf
+    · simp only [exprToBdd] at hb
+      rw [if_pos (by omega)] at hb; cases hb
+  | ofTable t b ht hb =>
+    have htw := table_inv ht
+    have hins : Table.gatherLiterals t = t.inputs := Table.gatherLiterals_of_WF t htw
+    simp only [tableToBdd, hins] at hb
+    split at hb
+    · cases hb
+    · cases hb; exact ⟨htw.1, by simp [Inner.mkDnf], Inner.wf_ofFn _ _⟩
+  | not _ ih => exact ⟨ih.1, ih.2.1, Inner.wf_not _⟩
+  | bit op _ _ hc iha ihb =>
+    obtain ⟨c', hc', hwf, _⟩ := Bdd.bitCommon_den op _ _ iha ihb
+    rw [hc] at hc'; cases hc'; exact hwf
+  | restrict v hv _ hc ih =>
+    obtain ⟨c', hc', hwf, _⟩ := Bdd.restrict_den v hv _ ih
+    rw [hc] at hc'; cases hc'; exact hwf
+  | existsQ vs hvs _ hc ih =>
+    obtain ⟨c', hc', hwf, _⟩ := Bdd.existsQ_den vs hvs _ ih
+    rw [hc] at hc'; cases hc'; exact hwf
+  | forallQ vs hvs _ hc ih =>
+    obtain ⟨c', hc', hwf, _⟩ := Bdd.forallQ_den vs hvs _ ih
+    rw [hc] at hc'; cases hc'; exact hwf
+  | derivative vs hvs _ hc ih =>
+    obtain ⟨c', hc', hwf, _⟩ := Bdd.derivative_den vs hvs _ ih
+    rw [hc] at hc'; cases hc'; exact hwf
+
+/-- … and none of these operations panics on a reachable diagram (the `expect`s, the `debug_assert!`
+    of prune, and lib-bdd's assertions in `set_num_vars` / `rename_variables` never fire) -/
+theorem bdd_ops_never_panic {a b : Bdd α} (ha : ReachB a) (hb : ReachB b) (op : Bool → Bool → Bool)
+    (v : PVal α) (hv : (v.map (·.1)).Nodup) (vs : List α) (hvs : vs.Nodup) :
+    (∃ c, Bdd.bitCommon (Inner.binop op) a b = .ok c) ∧ (∃ c, Bdd.restrict v a = .ok c) ∧
+    (∃ c, Bdd.existsQ vs a = .ok c) ∧ (∃ c, Bdd.forallQ vs a = .ok c) ∧ (∃ c, Bdd.derivative vs a = .ok c) ∧
+    (∃ r, Bdd.isEquivalent a b = .ok r) ∧ (∃ r, Bdd.isImpliedBy a b = .ok r) := by
+  have wa := bdd_inv ha
+  have wb := bdd_inv hb
+  refine ⟨?_, ?_, ?_, ?_, ?_, ?_, ?_⟩
+  · obtain ⟨c, hc, _⟩ := Bdd.bitCommon_den op a b wa wb; exact ⟨c, hc⟩
+  · obtain ⟨c, hc, _⟩ := Bdd.restrict_den v hv a wa; exact ⟨c, hc⟩
+  · obtain ⟨c, hc, _⟩ := Bdd.existsQ_den vs hvs a wa; exact ⟨c, hc⟩
+  · obtain ⟨c, hc, _⟩ := Bdd.forallQ_den vs hvs a wa; exact ⟨c, hc⟩
+  · obtain ⟨c, hc, _⟩ := Bdd.derivative_den vs hvs a wa; exact ⟨c, hc⟩
+  · obtain ⟨r, hr, _⟩ := Bdd.isEquivalent_iff a b wa wb; exact ⟨r, hr⟩
+  · obtain ⟨r, hr, _⟩ := Bdd.isImpliedBy_iff a b wa wb; exact ⟨r, hr⟩
 
 /-- the CSV importer produces well-formed tables too (the explicitly empty table of empty text is
     the one exception the property names; it is produced by `fromCsvString ""` only) -/
